@@ -178,6 +178,58 @@ func (f *Fn) enclosing(n ast.Node) *Fn {
 func (f *Fn) CFG() *cfg.CFG {
 	if f.g == nil {
 		f.g = cfg.New(f.Body, func(call *ast.CallExpr) bool { return f.mayReturn(call) })
+		// go/cfg lists every select communication in the block before the choice (operand
+		// evaluation order). For path reasoning a communication happens only on its own
+		// branch: move each comm statement to the head of its case body.
+		comms := map[ast.Stmt]*ast.CommClause{}
+		ast.Inspect(f.Body, func(n ast.Node) bool {
+			if l, ok := n.(*ast.FuncLit); ok && l != f.Lit {
+				return false
+			}
+			if cc, ok := n.(*ast.CommClause); ok && cc.Comm != nil {
+				comms[cc.Comm] = cc
+			}
+			return true
+		})
+		if len(comms) > 0 {
+			moved := map[*ast.CommClause]ast.Node{}
+			for _, b := range f.g.Blocks {
+				var keep []ast.Node
+				for _, n := range b.Nodes {
+					if st, ok := n.(ast.Stmt); ok {
+						if cc := comms[st]; cc != nil {
+							moved[cc] = n
+							continue
+						}
+					}
+					// expression form (e.g. `<-done` appears as the expression of an ExprStmt comm)
+					hit := false
+					for st, cc := range comms {
+						if es, ok := st.(*ast.ExprStmt); ok && ast.Node(es.X) == n {
+							moved[cc] = n
+							hit = true
+						}
+						if as, ok := st.(*ast.AssignStmt); ok && len(as.Rhs) == 1 && ast.Node(as.Rhs[0]) == n {
+							moved[cc] = st
+							hit = true
+						}
+					}
+					if !hit {
+						keep = append(keep, n)
+					}
+				}
+				b.Nodes = keep
+			}
+			for _, b := range f.g.Blocks {
+				if b.Kind == cfg.KindSelectCaseBody {
+					if cc, ok := b.Stmt.(*ast.CommClause); ok {
+						if n := moved[cc]; n != nil {
+							b.Nodes = append([]ast.Node{n}, b.Nodes...)
+						}
+					}
+				}
+			}
+		}
 		f.caseOf = map[ast.Expr]ast.Expr{}
 		ast.Inspect(f.Body, func(n ast.Node) bool {
 			if l, ok := n.(*ast.FuncLit); ok && l != f.Lit {
